@@ -28,6 +28,10 @@ type Program struct {
 	modsets         map[*ssa.Function]*ModSet
 	LoadSecs        float64
 	skipFresh       bool
+	UsedCHA         bool
+	chaCache        map[string][]*ssa.Function
+	ownAll          map[*ssa.Function]bool
+	modNames        map[string]bool
 	UsedPureDynamic map[string]bool
 	whyAll          map[*ssa.Function]string
 }
@@ -218,13 +222,23 @@ func (p *Program) ContractFor(fn *ssa.Function) *FuncContract {
 
 type ModSet struct {
 	All  bool
+	Std  bool            // every heap map whose key does not mention a type of this module (writes by the standard library)
 	Maps map[string]bool // heap map keys (see heapKey*)
+}
+
+// Has reports whether a write to heap key k is covered.
+func (m *ModSet) Has(k string, p *Program) bool {
+	return m.All || m.Maps[k] || (m.Std && !p.IsModuleKey(k))
 }
 
 func (m *ModSet) add(o *ModSet) bool {
 	ch := false
 	if o.All && !m.All {
 		m.All = true
+		ch = true
+	}
+	if o.Std && !m.Std {
+		m.Std = true
 		ch = true
 	}
 	for k := range o.Maps {
@@ -291,6 +305,7 @@ func (p *Program) modSetOf(fn *ssa.Function, ignoreOwn bool) *ModSet {
 			}
 			if !pureNoBodyPkgs[pk] {
 				ms.All = true
+				p.noteAll(f, "no body")
 			}
 			continue
 		}
@@ -314,8 +329,20 @@ func (p *Program) modSetOf(fn *ssa.Function, ignoreOwn bool) *ModSet {
 				case ssa.CallInstruction:
 					c := in.Common()
 					if c.IsInvoke() {
-						ms.All = true
-						p.noteAll(f, "interface method call "+c.Method.Name()+" at "+p.Fset.Position(in.Pos()).String())
+						impls := p.implementations(c)
+						if len(impls) == 0 {
+							ms.All = true
+							p.noteAll(f, "interface method call "+c.Method.Name()+" without known implementations at "+p.Fset.Position(in.Pos()).String())
+							continue
+						}
+						p.UsedCHA = true
+						for _, cf := range impls {
+							if !seen[cf] {
+								seen[cf] = true
+								work = append(work, cf)
+							}
+							callees[f] = append(callees[f], cf)
+						}
 						continue
 					}
 					switch cv := c.Value.(type) {
@@ -330,6 +357,7 @@ func (p *Program) modSetOf(fn *ssa.Function, ignoreOwn bool) *ModSet {
 							ms.Maps[mapKey(c.Args[0].Type())+"!v"] = true
 						case "clear":
 							ms.All = true
+							p.noteAll(f, "clear builtin")
 						}
 					case *ssa.Function:
 						if !seen[cv] {
@@ -359,13 +387,29 @@ func (p *Program) modSetOf(fn *ssa.Function, ignoreOwn bool) *ModSet {
 			}
 		}
 	}
+	// the standard library cannot write objects of this module's types except through callbacks it is
+	// handed; a library function without function/interface parameters whose frame is unbounded is
+	// summarised as "writes library-typed heap only" (Std)
+	norm := func(f *ssa.Function) {
+		if local[f].All && f.Blocks != nil && !p.inModule(f) && !takesCallbacks(f) {
+			local[f].All = false
+			local[f].Std = true
+		}
+	}
+	for _, f := range order {
+		norm(f)
+	}
 	for changed := true; changed; {
 		changed = false
 		for _, f := range order {
+			before := *local[f]
+			nb := len(local[f].Maps)
 			for _, c := range callees[f] {
-				if local[f].add(local[c]) {
-					changed = true
-				}
+				local[f].add(local[c])
+			}
+			norm(f)
+			if local[f].All != before.All || local[f].Std != before.Std || len(local[f].Maps) != nb {
+				changed = true
 			}
 		}
 	}
@@ -469,8 +513,7 @@ func (p *Program) storeKeys(addr ssa.Value, ms *ModSet) {
 	}
 	switch a := addr.(type) {
 	case *ssa.FieldAddr:
-		spt := a.X.Type().Underlying().(*types.Pointer)
-		p.fieldKeys(spt.Elem(), a.Field, ms)
+		p.fieldChainKeys(a, ms)
 		return
 	case *ssa.IndexAddr:
 		p.typeKeys(pt.Elem(), true, ms)
@@ -488,12 +531,21 @@ func (p *Program) storeKeys(addr ssa.Value, ms *ModSet) {
 }
 
 func (p *Program) fieldKeys(named types.Type, idx int, ms *ModSet) {
-	st := named.Underlying().(*types.Struct)
+	p.fieldKeysCtx(named, fmt.Sprint(idx), named, idx, ms)
+}
+
+// fieldKeysCtx adds the heap keys of field idx of struct type imm, which is reached from struct type root
+// along index path `path` through struct-valued fields whose addresses do not escape.
+func (p *Program) fieldKeysCtx(root types.Type, path string, imm types.Type, idx int, ms *ModSet) {
+	st := imm.Underlying().(*types.Struct)
 	ft := st.Field(idx).Type()
-	if _, isStruct := ft.Underlying().(*types.Struct); isStruct {
-		sub := ft.Underlying().(*types.Struct)
+	if sub, isStruct := ft.Underlying().(*types.Struct); isStruct {
 		for i := 0; i < sub.NumFields(); i++ {
-			p.fieldKeys(ft, i, ms)
+			if p.FieldEscapes(imm, idx) {
+				p.fieldKeysCtx(ft, fmt.Sprint(i), ft, i, ms)
+			} else {
+				p.fieldKeysCtx(root, fmt.Sprintf("%s.%d", path, i), ft, i, ms)
+			}
 		}
 		return
 	}
@@ -501,10 +553,41 @@ func (p *Program) fieldKeys(named types.Type, idx int, ms *ModSet) {
 		p.typeKeys(at.Elem(), true, ms)
 		return
 	}
-	if p.FieldEscapes(named, idx) {
+	if p.FieldEscapes(imm, idx) {
 		ms.Maps["H|"+typeKey(ft)] = true
 	} else {
-		ms.Maps["F|"+typeKey(named)+"|"+fmt.Sprint(idx)] = true
+		ms.Maps["F|"+typeKey(root)+"|"+path] = true
+	}
+}
+
+// fieldChainKeys handles a store through a chain of FieldAddr instructions (outermost first).
+func (p *Program) fieldChainKeys(a *ssa.FieldAddr, ms *ModSet) {
+	var chain []*ssa.FieldAddr
+	for cur := a; cur != nil; {
+		chain = append([]*ssa.FieldAddr{cur}, chain...)
+		next, ok := cur.X.(*ssa.FieldAddr)
+		if !ok {
+			break
+		}
+		cur = next
+	}
+	var root types.Type
+	path := ""
+	for k, fa := range chain {
+		imm := fa.X.Type().Underlying().(*types.Pointer).Elem()
+		if root == nil {
+			root, path = imm, fmt.Sprint(fa.Field)
+		} else {
+			path = fmt.Sprintf("%s.%d", path, fa.Field)
+		}
+		if k == len(chain)-1 {
+			p.fieldKeysCtx(root, path, imm, fa.Field, ms)
+			return
+		}
+		ft := imm.Underlying().(*types.Struct).Field(fa.Field).Type()
+		if _, isStruct := ft.Underlying().(*types.Struct); !isStruct || p.FieldEscapes(imm, fa.Field) {
+			root = nil
+		}
 	}
 }
 
@@ -578,7 +661,68 @@ func (p *Program) DeclaredMods(fc *FuncContract) *ModSet {
 	return ms
 }
 
+func (p *Program) inModule(f *ssa.Function) bool {
+	pk := ""
+	if f.Pkg != nil {
+		pk = f.Pkg.Pkg.Path()
+	} else if f.Object() != nil && f.Object().Pkg() != nil {
+		pk = f.Object().Pkg().Path()
+	} else if f.Parent() != nil {
+		return p.inModule(f.Parent())
+	}
+	return strings.HasPrefix(pk, modPath)
+}
+
+// takesCallbacks: the function receives a function or interface value (other than error / empty-interface
+// operands of formatting functions, which are only read) through which it could call back into the module.
+func takesCallbacks(f *ssa.Function) bool {
+	pk := ""
+	if f.Pkg != nil {
+		pk = f.Pkg.Pkg.Path()
+	}
+	if pk == "fmt" || pk == "strconv" || pk == "errors" || pk == "strings" || pk == "bytes" || pk == "unicode/utf8" {
+		return false
+	}
+	for _, prm := range f.Params {
+		switch u := prm.Type().Underlying().(type) {
+		case *types.Signature:
+			return true
+		case *types.Interface:
+			if u.NumMethods() > 0 {
+				return true
+			}
+		case *types.Slice:
+			if it, ok := u.Elem().Underlying().(*types.Interface); ok && it.NumMethods() > 0 {
+				return true
+			}
+		}
+	}
+	return false
+}
+
+// IsModuleKey: the heap key mentions a type declared in this module.
+func (p *Program) IsModuleKey(k string) bool {
+	if p.modNames == nil {
+		p.modNames = map[string]bool{}
+		for path, sp := range p.Pkgs {
+			if strings.HasPrefix(path, modPath) {
+				p.modNames[sp.Pkg.Name()+"_"] = true
+			}
+		}
+	}
+	for n := range p.modNames {
+		if strings.Contains(k, n) {
+			return true
+		}
+	}
+	return false
+}
+
 func (p *Program) noteAll(f *ssa.Function, why string) {
+	if p.ownAll == nil {
+		p.ownAll = map[*ssa.Function]bool{}
+	}
+	p.ownAll[f] = true
 	if p.whyAll == nil {
 		p.whyAll = map[*ssa.Function]string{}
 	}
@@ -596,6 +740,9 @@ func (p *Program) WhyAll(fn *ssa.Function) string {
 			return ""
 		}
 		seen[f] = true
+		if f.Blocks != nil && !p.inModule(f) && !takesCallbacks(f) {
+			return "" // summarised as library-only writes
+		}
 		if w, ok := p.whyAll[f]; ok {
 			return w
 		}
@@ -719,4 +866,46 @@ func (p *Program) WhyKey(fn *ssa.Function, k string) string {
 		return ""
 	}
 	return walk(fn)
+}
+
+// implementations resolves an interface method call by class-hierarchy analysis over the loaded packages.
+func (p *Program) implementations(c *ssa.CallCommon) []*ssa.Function {
+	it, ok := c.Value.Type().Underlying().(*types.Interface)
+	if !ok {
+		return nil
+	}
+	key := c.Value.Type().String() + "." + c.Method.Name()
+	if r, ok := p.chaCache[key]; ok {
+		return r
+	}
+	var out []*ssa.Function
+	for _, sp := range p.Pkgs {
+		for _, mem := range sp.Members {
+			tm, ok := mem.(*ssa.Type)
+			if !ok {
+				continue
+			}
+			if _, isIface := tm.Type().Underlying().(*types.Interface); isIface {
+				continue
+			}
+			for _, t := range []types.Type{tm.Type(), types.NewPointer(tm.Type())} {
+				if !types.Implements(t, it) {
+					continue
+				}
+				sel := p.Prog.MethodSets.MethodSet(t).Lookup(c.Method.Pkg(), c.Method.Name())
+				if sel == nil {
+					continue
+				}
+				if fn := p.Prog.MethodValue(sel); fn != nil {
+					out = append(out, fn)
+				}
+				break
+			}
+		}
+	}
+	if p.chaCache == nil {
+		p.chaCache = map[string][]*ssa.Function{}
+	}
+	p.chaCache[key] = out
+	return out
 }
